@@ -14,7 +14,7 @@ matcher.compute_one_match: `for view in get_views([var])`         `views`, then 
   _match_value_against_type: Unsolvable (Any) ⇒ match; Union:     `.any`; `matchAny` (some option matches, *per view*)
     some option matches
   _match_type_against_type:
-    left a Class  vs type[X]: instantiate left, match X           `.typeC`, `.typeAny`
+    left a Class  vs type[X]: instantiate left, match X           `.typeC`, `.typeU` (X a union), `.typeAny`
                   vs object / Callable / type ⇒ match             `.object`, `.callable`
     left a function vs object / bare Callable ⇒ match             `.callable`
     otherwise _match_instance_against_type:
@@ -66,6 +66,7 @@ inductive Ann where
   | base (b : Base)
   | cls (k : Nat)              -- `K<k>`
   | typeC (k : Nat)            -- `type[K<k>]`
+  | typeU (ks : List Nat) (bs : List Scal)   -- `type[Union[K<k1>, …, b1, …]]` (user classes and builtin scalar classes)
   | opt (a : Ann)              -- `Optional[a]`
   | union (as : List Ann)      -- `Union[a1, …, an]`
   | gen1 (g : G1) (a : Ann)
@@ -80,6 +81,7 @@ def InF2 (H : Hierarchy) : Ann → Bool
   | .base _ => true
   | .cls k => decide (k < H.size)
   | .typeC k => decide (k < H.size)
+  | .typeU ks bs => decide (2 ≤ ks.length + bs.length) && ks.all fun k => decide (k < H.size)
   | .opt a => InF2 H a
   | .union as => decide (2 ≤ as.length) && InF2L H as
   | .gen1 _ a => InF2 H a
@@ -156,6 +158,22 @@ def matchBase (w : VTy) (b : Base) : Bool :=
   | .callable => (match w with | .func | .clsobj _ | .bclsobj _ => true | _ => false)
   | .typeAny => (match w with | .clsobj _ | .bclsobj _ => true | _ => false)
 
+/-- the builtin class objects the harness uses as values: `int`, `float`, `bool` (any other index: a builtin class
+that is not a scalar class, e.g. `list`) -/
+def scalOfB : Nat → Option Scal
+  | 0 => some .int
+  | 1 => some .float
+  | 2 => some .bool
+  | _ => none
+
+/-- a class object against `type[Union[…]]`: `_match_type_against_type` instantiates the class and matches the
+instance against the union (so the compat builtins apply to class objects too: `int` is a `type[float]`) -/
+def matchTypeU (H : Hierarchy) (w : VTy) (ks : List Nat) (bs : List Scal) : Bool :=
+  match w with
+  | .clsobj c => ks.any fun k => H.sub c k
+  | .bclsobj b => (match scalOfB b with | some s => bs.any fun t => fromMro s t | none => false)
+  | _ => false
+
 mutual
 /-- the matcher's decision for ONE view -/
 def matchV (H : Hierarchy) : VTy → Ann → Bool
@@ -163,6 +181,7 @@ def matchV (H : Hierarchy) : VTy → Ann → Bool
   | w, .base b => matchBase w b
   | w, .cls k => (match w with | .inst c => H.sub c k | _ => false)
   | w, .typeC k => (match w with | .clsobj c => H.sub c k | _ => false)
+  | w, .typeU ks bs => matchTypeU H w ks bs
   | w, .opt a => matchV H w a || matchBase w .none
   | w, .union as => matchAny H w as
   | w, .gen1 g a =>
@@ -224,6 +243,22 @@ def memBase (v : Val) (b : Base) : Bool :=
   | .callable => (match v with | .func _ | .clsobj _ | .bclsobj _ => true | _ => false)
   | .typeAny => (match v with | .clsobj _ | .bclsobj _ => true | _ => false)
 
+/-- class-level counterpart of `memBase`: the builtin scalar class `s` is `t`, a subclass of it (`bool <: int`), or
+promoted to it (`int → float → complex`) -/
+def clsPromotes (s t : Scal) : Bool :=
+  match s, t with
+  | .int, .int | .int, .float | .int, .complex => true
+  | .float, .float | .float, .complex => true
+  | .bool, .bool | .bool, .int | .bool, .float | .bool, .complex => true
+  | _, _ => false
+
+/-- a class object inhabits `type[Union[…]]` iff it is a subclass of (or promoted to) one of the options -/
+def memTypeU (H : Hierarchy) (v : Val) (ks : List Nat) (bs : List Scal) : Bool :=
+  match v with
+  | .clsobj c => ks.any fun k => H.sub c k
+  | .bclsobj b => (match scalOfB b with | some s => bs.any fun t => clsPromotes s t | none => false)
+  | _ => false
+
 mutual
 /-- `member H v a`: the run-time value of the ground expression `v` inhabits `a`.  Containers element-wise, fixed
 tuples by length and position, ABC membership by the run-time's registered hierarchy (list/tuple/str/bytes are
@@ -233,6 +268,7 @@ def member (H : Hierarchy) : Val → Ann → Bool
   | v, .base b => memBase v b
   | v, .cls k => (match v with | .inst c => H.sub c k | _ => false)
   | v, .typeC k => (match v with | .clsobj c => H.sub c k | _ => false)
+  | v, .typeU ks bs => memTypeU H v ks bs
   | v, .opt a => member H v a || memBase v .none
   | v, .union as => memberAny H v as
   | v, .gen1 g a =>
@@ -317,7 +353,7 @@ def Ann.notBool : Ann → Bool | .base .bool => false | _ => true
 def Ann.notColl : Ann → Bool | .gen1 .coll _ => false | _ => true
 /-- an option whose match only looks at the class of the value (no parameters, not itself a union) -/
 def Ann.flat : Ann → Bool
-  | .base _ | .cls _ | .typeC _ => true
+  | .base _ | .cls _ | .typeC _ | .typeU _ _ => true
   | _ => false
 /-- a union with at most one option that is not flat -/
 def Ann.simpleUnion : Ann → Bool
